@@ -127,6 +127,21 @@ impl<E: FieldElement, H: ElementHasher<BaseField = E::BaseField>> VerifierChanne
             .parse(main_trace_width, aux_trace_width, constraint_frame_width)
             .map_err(|err| VerifierError::ProofDeserializationError(err.to_string()))?;
 
+        // the Lagrange kernel frame must be present exactly when the AIR has a Lagrange kernel
+        // column, and must then contain log(trace_length) + 1 evaluations
+        let expected_lagrange_frame_size = if air.context().has_lagrange_kernel_aux_column() {
+            Some(air.trace_length().ilog2() as usize + 1)
+        } else {
+            None
+        };
+        if ood_trace_frame.lagrange_kernel_frame().map(|frame| frame.num_rows())
+            != expected_lagrange_frame_size
+        {
+            return Err(VerifierError::ProofDeserializationError(
+                "unexpected size of the Lagrange kernel out-of-domain frame".to_string(),
+            ));
+        }
+
         Ok(VerifierChannel {
             // trace queries
             trace_roots,
